@@ -448,7 +448,8 @@ class World:
         if kind in ("missing-first", "missing-middle", "missing-last") and files:
             skip = files[0] if kind == "missing-first" else files[-1] if kind == "missing-last" else files[len(files) // 2]
         for o in files:
-            mk = f"head -c {o[2]} /dev/zero > {o[1]}" if o[2] else f"printf '%s\\n' '{o[1]} of t{i}' > {o[1]}"
+            mk = (f"truncate -s {o[2]} {o[1]}" if len(o) > 3 and o[3] == "sparse" else f"head -c {o[2]} /dev/zero > {o[1]}") if o[2] \
+                else f"printf '%s\\n' '{o[1]} of t{i}' > {o[1]}"
             parts.append(f"if test -f {F}; then {mk}; fi" if o is skip else mk)
         if dirs:
             if len(dirs) <= 3:
@@ -494,13 +495,32 @@ class World:
                              errors="replace", start_new_session=True)
         sig_at, sig_ns = None, None
         if interrupt:
-            time.sleep(interrupt["delay"])
+            if interrupt.get("when") == "cas-file":
+                # the moment an output is being copied into the cache: the first file (temporary or not) under cache/cas
+                t_end = time.time() + 30
+                while time.time() < t_end and p.poll() is None and not self.cas_blobs(include_tmp=True):
+                    time.sleep(0.004)
+                time.sleep(interrupt.get("delay", 0))
+            else:
+                time.sleep(interrupt["delay"])
             if p.poll() is None:
                 sig_at, sig_ns = time.time(), time.time_ns()
                 try:
                     os.kill(p.pid, getattr(signal, interrupt["signal"]))
                 except ProcessLookupError:
                     sig_at = None
+                if sig_at and interrupt.get("freeze"):
+                    # a busy machine: the signal has been handled, then the process does not get the CPU for a while
+                    try:
+                        time.sleep(0.05)
+                        os.kill(p.pid, signal.SIGSTOP)
+                        t_f = time.time()
+                        # while nothing moves: whatever is visible in the CAS under a digest now is what an exit at this instant leaves
+                        self._frozen_audit = self.cas_audit() if self.world["cfg"]["hash_algorithm"] == "sha256" else []
+                        time.sleep(max(0, interrupt["freeze"] - (time.time() - t_f)))
+                        os.kill(p.pid, signal.SIGCONT)
+                    except OSError:
+                        pass
         if self.world.get("slow_reader") and not interrupt:
             time.sleep(self.world["slow_reader"])
         try:
@@ -535,18 +555,42 @@ class World:
             except OSError:
                 pass
         return {"rc": rc, "out": out, "wall": wall, "trace": self.read_trace(), "sig_latency": (t_exit - sig_at) if sig_at else None,
-                "signalled": sig_at is not None, "sig_ns": sig_ns, "shells_left": shells_left}
+                "signalled": sig_at is not None, "sig_ns": sig_ns, "shells_left": shells_left, "frozen_audit": self.__dict__.pop("_frozen_audit", [])}
 
     def taint(self, ids):
         labels = [f"//pkg:{name(self.T[i])}" for i in ids]
         return subprocess.run([self.grog, "taint", *labels], cwd=self.ws, env=self.env(), capture_output=True, text=True, timeout=60)
 
-    def cas_blobs(self):
+    def cas_blobs(self, include_tmp=False):
         out = []
         for r, _, files in os.walk(self.root):
             if os.path.basename(r) == "cas":
-                out += [os.path.join(r, f) for f in files]
+                out += [os.path.join(r, f) for f in files if include_tmp or not f.startswith("tmp-")]
         return out
+
+    def cas_audit(self):
+        """sha256 worlds: every blob filed under a digest has that digest. -> list of (name, size) of blobs that do not"""
+        bad = []
+        seen = self.__dict__.setdefault("_audited", {})
+        for f in self.cas_blobs():
+            nm = os.path.basename(f)
+            if len(nm) != 64:
+                continue
+            try:
+                st = os.stat(f)
+                if seen.get(f) == (st.st_size, st.st_mtime_ns):
+                    continue
+                h = hashlib.sha256()
+                with open(f, "rb") as fh:
+                    for chunk in iter(lambda: fh.read(1 << 22), b""):
+                        h.update(chunk)
+                if h.hexdigest() != nm:
+                    bad.append((nm[:16], st.st_size))
+                else:
+                    seen[f] = (st.st_size, st.st_mtime_ns)
+            except OSError:
+                pass
+        return bad
 
     def target_cache_entries(self):
         n = 0
@@ -690,6 +734,9 @@ def run_world(ctx, wname, world):
                 elif op == "rm-outputs":
                     w.rm_outputs([i for i in range(n) if rng.random() < 0.6])
                     disturbed = True
+                elif op == "rm-all-outputs":
+                    w.rm_outputs(range(n))
+                    disturbed = True
                 elif op == "break+taint-failing":
                     fl = [t["id"] for t in T if t["fail"]]
                     for i in fl:
@@ -723,6 +770,7 @@ def run_world(ctx, wname, world):
             summ["index"] = bi
             res["builds"].append(summ)
             world["_after_interrupt"] = bool(intr and b["signalled"])
+            world["_had_interrupt"] = bool(world.get("_had_interrupt") or (intr and b["signalled"]))
             if b["rc"] == 124:
                 break
             disturbed = False
@@ -840,11 +888,25 @@ def check_build(w, world, b, anc, ids, succeeded_ever, need_run, disturbed, inte
     summ["peak"] = peak
     if peak > W:
         V("C03", "more-commands-than-workers", f"{peak} commands ran at the same time with num_workers={W}: {sorted(what)[:8]}")
+    if cfg["hash_algorithm"] == "sha256" and cfg["enable_cache"]:
+        wrong = w.cas_audit()
+        if wrong:
+            V("C18" if (interrupted or world.get("_had_interrupt")) else "C07", "cas-blob-does-not-match-its-digest",
+              f"blobs in the CAS whose content does not have the digest they are filed under (name, size): {wrong[:4]}"
+              + (" - after an interrupted build" if (interrupted or world.get("_had_interrupt")) else ""))
+    if b.get("frozen_audit"):
+        V("C18", "partial-cas-blob-visible-at-interrupt", f"{world['interrupt']['signal']} while an output was being copied into the cache, process frozen right after: the CAS "
+          f"shows entries under a digest their content does not (yet) have (name, size): {b['frozen_audit'][:3]}; an exit at this instant leaves them, and the next "
+          "build takes them for the complete blob")
     if interrupted:
         signame = world["interrupt"]["signal"]
         finished = "completed successfully" in out
-        if rc == 0 and not finished:
-            V("C18", "interrupt-exit-zero", f"the build was interrupted by {signame} before it finished but exited 0")
+        # shells that were running when the signal arrived and never reached their end: the build cannot have completed
+        cut = sorted(name(T[i]) for i in started if b.get("sig_ns") and starts[i][0] < b["sig_ns"] and (i not in ends or (i in exits and exits[i][0] != 0)))
+        if rc == 0 and (not finished or cut):
+            V("C18", "interrupt-exit-zero", f"the build was interrupted by {signame} before it finished"
+              + (f" (the commands of {cut} were running and did not reach their end)" if cut else "") + " but exited 0"
+              + (" and reports success" if finished else ""))
         if b["sig_latency"] is not None and b["sig_latency"] > 5:
             V("C18", "interrupt-slow-exit", f"grog exited {b['sig_latency']:.1f} s after {signame} (bound 5 s)")
         if b.get("sig_ns"):
@@ -951,6 +1013,9 @@ def check_build(w, world, b, anc, ids, succeeded_ever, need_run, disturbed, inte
             st = w.outputs_state(i)
             if st and i not in ok_now:
                 V("C05", "declared-output-absent-after-successful-build", f"build exited 0 (load_outputs=all) but outputs of {name(T[i])} are not in the workspace: {st[:3]}")
+                if world.get("_had_interrupt"):
+                    V("C18", "wrong-output-restored-after-interrupt", f"a build after the interrupted one exited 0 but the outputs of {name(T[i])} it restored from the "
+                      f"cache are not what the command produces: {st[:3]}")
     return summ
 
 
@@ -1027,11 +1092,36 @@ def designed_worlds(rng, focus):
             out.append(dict(base, designed="interrupt-queued", cfg=dict(cfg0, num_workers=workers), targets=T,
                             history=[{"op": "build"}, {"op": "nothing"}, {"op": "build"}],
                             interrupt={"signal": sig, "delay": rng.choice([0.5, 0.7]), "build": 0}))
+    if focus == "C18":
+        # (a) the signal arrives while the big output of a FINISHED command is being copied into the cache; then build again, remove
+        #     the outputs, build a third time (cache hit): CAS audit (sha256: every blob has the digest it is filed under) and bytes
+        for freeze, size in ((0.8, 500 << 20), (0.6, 300 << 20)):
+            T = [_blank_target(0, outs=[("file", "t0.big", size, "sparse")]), _blank_target(1, deps=[0], alias={0: 1})]
+            out.append(dict(base, designed="interrupt-output-write", cfg=dict(cfg0, num_workers=2, hash_algorithm="sha256"), targets=T,
+                            history=[{"op": "build"}, {"op": "nothing"}, {"op": "build"}, {"op": "rm-all-outputs"}, {"op": "build"}],
+                            interrupt={"signal": rng.choice(["SIGINT", "SIGTERM"]), "when": "cas-file", "delay": 0, "freeze": freeze, "build": 0}))
+        # (b) running shells of targets that declare a `timeout:` (their command runs under a context of its own)
+        for sig in ("SIGINT", "SIGTERM"):
+            T = [_blank_target(i, sleep=3, timeout=("5m" if i % 2 else None)) for i in range(4)]
+            out.append(dict(base, designed="interrupt-timeout-shells", cfg=dict(cfg0, num_workers=4), targets=T,
+                            history=[{"op": "build"}, {"op": "nothing"}, {"op": "build"}],
+                            interrupt={"signal": sig, "delay": 0.7, "build": 0}))
+        # (c) late signal: everything but one slow target has completed, and the selection contains aliases (nodes that complete
+        #     without being targets) on completed targets
+        for sig, depth in (("SIGINT", 1), ("SIGTERM", 2)):
+            T = [_blank_target(0), _blank_target(1, deps=[0], alias={0: depth}), _blank_target(2, deps=[1], alias={1: depth}, sleep=3)]
+            out.append(dict(base, designed="interrupt-late-with-aliases", cfg=dict(cfg0, num_workers=2), targets=T,
+                            history=[{"op": "build"}, {"op": "nothing"}, {"op": "build"}],
+                            interrupt={"signal": sig, "delay": 1.2, "build": 0}))
     return out
 
 
 def force_interrupt(world, rng):
-    """C18: every world gets an interrupt, on a build that is followed by another one"""
+    """C18: every world gets an interrupt, on a build that is followed by another one; a third of the targets declare a generous
+    `timeout:` (their command runs under a context of its own)"""
+    for t in world["targets"]:
+        if not t["timeout"] and rng.random() < 0.35:
+            t["timeout"] = rng.choice(["20s", "5m", "1h"])
     nb = sum(1 for st in world["history"] if st["op"] == "build")
     if nb == 1:
         world["history"] += [{"op": "nothing"}, {"op": "build"}]
@@ -1048,17 +1138,18 @@ def run_worlds(ctx, nworlds, focus, threads=4, interrupt_all=False):
     if ctx.grog_binary() is None:
         return [], {}
     seeds = [ctx.rng.randrange(1 << 30) for _ in range(nworlds)]
-    designed = [] if interrupt_all else designed_worlds(random.Random(ctx.rng.randrange(1 << 30)), focus)
+    designed = designed_worlds(random.Random(ctx.rng.randrange(1 << 30)), "C18" if interrupt_all else focus)
     seeds = [-(k + 1) for k in range(len(designed))] + seeds
 
     def one(k, seed):
         world = designed[-seed - 1] if seed < 0 else gen_world(random.Random(seed), focus)
-        if interrupt_all:
+        if interrupt_all and seed >= 0:
             force_interrupt(world, random.Random(seed + 1))
         r = run_world(ctx, f"world-{focus}-{k}", world)
         r["seed"] = seed
         if r["bad"]:
             world.pop("_after_interrupt", None)
+            world.pop("_had_interrupt", None)
             r2 = run_world(ctx, f"world-{focus}-{k}-again", world)
             sig2 = {(p, s) for p, s, _ in r2["bad"]}
             r["unconfirmed"] = [(p, s) for p, s, _ in r["bad"] if (p, s) not in sig2]
